@@ -64,6 +64,27 @@ func CompileSafe(src string) (v *libvore.Vore, err error, p *PanicInfo) {
 	return
 }
 
+// CompileFileSafe writes src to a scratch file and compiles it with CompileFile
+// (the entry point behind the CLI's -src).
+func CompileFileSafe(src string) (v *libvore.Vore, err error, p *PanicInfo) {
+	dir, derr := os.MkdirTemp(scratchDir(), "src-")
+	if derr != nil {
+		panic(derr)
+	}
+	defer os.RemoveAll(dir)
+	path := filepath.Join(dir, "program.vore")
+	if werr := os.WriteFile(path, []byte(src), 0o644); werr != nil {
+		panic(werr)
+	}
+	defer func() {
+		if r := recover(); r != nil {
+			p = capturePanic(r)
+		}
+	}()
+	v, err = libvore.CompileFile(path)
+	return
+}
+
 type RunResult struct {
 	Matches    engine.Matches
 	Panic      *PanicInfo
